@@ -356,6 +356,55 @@ def mk(base):
 ]
 
 
+# names the generated module binds around the converted function: the two factories and the transformed
+# function itself (`ag__` -- the factory parameter -- is a known C11 matter and lives in OUT_OF_GUARANTEE)
+WRAPPER_NAMES = ['inner_factory', 'outer_factory', 'ag__f', 'ag__lam', 'inner_factory_1', 'outer_factory_1']
+
+
+def wrapper_name_items():
+    """Functions whose module-level globals / free variables are spelled like the wrapper-level names of the
+    generated module, read directly, through a nested def, through a lambda, and rebound through `global`:
+    the converted function is lexically nested in those wrappers, so its global lookups must not be captured."""
+    out = []
+    for name in WRAPPER_NAMES:
+        for mode in ('direct', 'nested', 'lambda', 'write', 'freevar', 'lambda-entity'):
+            if mode == 'lambda-entity' and name == 'ag__f':
+                continue
+            if mode != 'lambda-entity' and name == 'ag__lam':
+                continue
+            L = ['G = 41']
+            if mode != 'freevar':
+                L.append('%s = %r' % (name, 'global:' + name))
+            body = {'direct': ['return (p, %s, zeta, G)' % name],
+                    'nested': ['def h():', '    def hh():', '        return %s' % name, '    return hh()',
+                               'return (p, h(), zeta, G)'],
+                    'lambda': ['h = lambda _z=0: (%s, zeta)' % name, 'return (p, h(), G)'],
+                    'write': ['global %s' % name, '%s = %s + "!"' % (name, name), 'return (p, %s, zeta)' % name],
+                    'freevar': ['nonlocal %s' % name, '%s = %s + 1' % (name, name),
+                                'return (p, %s, (lambda _z=0: %s)(), zeta)' % (name, name)]}
+            L.append('def mk(base):')
+            L.append('    zeta = base + 7')
+            cv = ['zeta']
+            if mode == 'freevar':
+                L.append('    %s = base + 3' % name)
+                cv.append(name)
+            if mode == 'lambda-entity':
+                L.append('    f = lambda p=_d(1, 0): (p, %s, (lambda _z=0: %s)(), zeta)' % (name, name))
+            else:
+                L.append('    def f(p=_d(1, 0)):')
+                L.extend('        ' + b for b in body[mode])
+            L.append('    def get_all():')
+            L.append('        return {%s}' % ', '.join('%r: %s' % (n, n) for n in cv))
+            L.append('    def set_var(_name, _val):')
+            L.append('        nonlocal ' + ', '.join(cv))
+            for n in cv:
+                L.append('        if _name == %r:' % n)
+                L.append('            %s = _val' % n)
+            L.append('    return f, get_all, set_var')
+            out.append(('wrapper-name:%s:%s' % (name, mode), '\n'.join(L) + '\n'))
+    return out
+
+
 # =========================================================================================
 # loading generated modules from real files
 # =========================================================================================
@@ -841,7 +890,7 @@ def oracle(r, loaded, o, get_all, set_var, decos, calls_budget=3):
             fails.append(('closure', 'new free variable %s is bound to an original cell' % n))
     # calls: same outcome for every binding, from the same state of the shared cells
     cells = list(fn.__closure__ or ())
-    gkeys = [k for k in ('G', 'H') if k in fn.__globals__]
+    gkeys = [k for k in ('G', 'H') + tuple(WRAPPER_NAMES) if k in fn.__globals__]
     call = target            # bound method: obj.f(*a) vs cf(obj, *a)
     pre = (target.__self__,) if inspect.ismethod(target) else ()
     ncalls = 0
@@ -980,7 +1029,9 @@ def check(run):
                 'definition / reference order, 3 function objects sharing one code object in 30% of the closure cases (cell '
                 'contents equal / different / mixed at conversion time) + a stream of sibling closures with equal or '
                 'unassigned cells converted back to back, '
-                'defaults cleared / replaced after definition in a separate stream; + 6 fixed special shapes; '
+                'defaults cleared / replaced after definition in a separate stream; + 6 fixed special shapes; + every '
+                'wrapper-level name of the generated module (inner_factory, outer_factory, ag__f, ag__lam, ..._1) as a '
+                'module global / free variable read directly, through nested defs, through lambdas, rebound; '
                 'distinct non-trivial = distinct (kind, parameter-kind shape, default pattern, closure usage modes)')
     tmp = vlib.ensure_dir(os.path.join(vlib.BUILD, 'tmp', 'c09-%d' % os.getpid()))
     old_tmp = os.environ.get('TMPDIR')
@@ -1024,6 +1075,9 @@ def _check(run, tmp):
         for name, src in CORPUS:
             items.append(({'idx': len(items), 'kind': 'corpus:' + name, 'instances': 1, 'cleared': None,
                            'sig': None, 'closure': []}, textwrap.dedent(src).lstrip(), None, []))
+        for name, src in wrapper_name_items():
+            items.append(({'idx': len(items), 'kind': name, 'instances': 2, 'bases': [0, 0], 'cleared': None,
+                           'sig': None, 'closure': []}, src, None, []))
         for i in range(n_specs):
             spec = gen_spec(r, len(items))
             src, dsrc, decos = render(spec)
